@@ -234,7 +234,8 @@ theorem exec_plain_pres (s : Sys) (t : Nat) (op : Op) (hp : isPlain op = true) (
     · exact Pres.refl _
     · exact Pres.refl _
     · split
-      · exact Pres.of_loc (Sys.sendCmd_loc _ _ _ _ _)
+      · rw [Sys.noteParked_th]
+        exact Pres.of_loc (Sys.sendCmd_loc _ _ _ _ _)
       · exact Pres.refl _
   | drop v =>
     simp only [exec]
@@ -270,8 +271,8 @@ theorem exec_plain_pres (s : Sys) (t : Nat) (op : Op) (hp : isPlain op = true) (
   | ctxOf v => simp only [exec]; split <;> exact Pres.refl _
   | ctxLocal => simp only [exec]; split <;> exact Pres.refl _
   | toRecords x tr sp => simp only [exec]; split <;> exact Pres.refl _
-  | cycle => simp only [exec]; split <;> exact Pres.refl _
-  | flush => simp only [exec]; split <;> exact Pres.refl _
+  | cycle => simp only [exec]; split <;> first | exact Pres.refl _ | (rw [show (s.cycle.1, Obs.report s.cycle.2).1.th t = s.th t from Sys.cycle_th s t]; exact Pres.refl _)
+  | flush => simp only [exec]; split <;> first | exact Pres.refl _ | (rw [show (s.cycle.1, Obs.report s.cycle.2).1.th t = s.th t from Sys.cycle_th s t]; exact Pres.refl _)
   | cycBegin => rw [show (exec s t .cycBegin).1.th t = s.th t from Sys.cycBegin_th s t]; exact Pres.refl _
   | cycStep => rw [show (exec s t .cycStep).1.th t = s.th t from Sys.cycStep_th s t]; exact Pres.refl _
   | stats => simp only [exec]; split <;> exact Pres.refl _
